@@ -261,7 +261,7 @@ func c20One(ctx *vh.Ctx, c *c20Case, repeats int) error {
 }
 
 func runC20(ctx *vh.Ctx) error {
-	ctx.Res.Rule = "construction sequences over <=5 nodes (+ injected ones) from the 9-type menu, random call order, one violation of a random kind at a random position in ~55% of the graph-stream cases, Add*/re-Compile after Compile, 20 fresh re-executions of every sequence; chain and workflow streams with deferred errors and re-Compile; non-trivial = at least 4 successful calls before the first error, or the graph compiled; distinct by (stream, graph types, state, call sequence)"
+	ctx.Res.Rule = "construction sequences over <=5 nodes (+ injected ones) from the 9-type menu, random call order, one violation of a random kind at a random position in ~55% of the graph-stream cases, Add*/re-Compile after Compile, 20 fresh re-executions of every sequence; chain and workflow streams with deferred errors and re-Compile; non-trivial = at least 4 successful calls before the first error, or the graph compiled; distinct by (stream, graph types, state, call sequence); stream static: Workflows of 1-3 echo lambdas with static values, SetStaticValue / AddInput through retained handles before and after Compile, 1-6 Compiles, every runnable run (Invoke and Stream) after its Compile and after the later calls; non-trivial = a runnable was run after a SetStaticValue made after its Compile"
 	repeats := 20
 	if ctx.Replay != nil {
 		var probe struct {
@@ -273,6 +273,13 @@ func runC20(ctx *vh.Ctx) error {
 				return err
 			}
 			return c20DOne(ctx, &dc, repeats)
+		}
+		if probe.Stream == "static" {
+			var sc c20SCase
+			if err := json.Unmarshal(ctx.Replay, &sc); err != nil {
+				return err
+			}
+			return c20SOne(ctx, &sc, repeats)
 		}
 		var c c20Case
 		if err := json.Unmarshal(ctx.Replay, &c); err != nil {
@@ -295,6 +302,17 @@ func runC20(ctx *vh.Ctx) error {
 	// … and the calls after a Compile on the graphs of such trees (Model/C20Nest.lean)
 	for _, c := range c20DNestFixed() {
 		if err := c20DOne(ctx, c, repeats); err != nil {
+			return err
+		}
+	}
+	// static values of a Workflow and calls through retained node handles after Compile (Model/C20Static.lean)
+	for _, c := range c20SFixed() {
+		if err := c20SOne(ctx, c, repeats); err != nil {
+			return err
+		}
+	}
+	for i, ns := 0, ctx.N(700, 4000); i < ns && ctx.TimeLeft(); i++ {
+		if err := c20SOne(ctx, c20SGen(ctx.Rng), 2); err != nil {
 			return err
 		}
 	}
